@@ -176,6 +176,41 @@ func ruleC10Assert(c *Ctx) {
 		f, b := loadedField(call.Call.Value)
 		return sameVar(f, fld) && b == base
 	}
+	// denotes: x is base.fld.GetType(), or the usual "left type, or the right type when the left is Any" merge
+	denotes := func(fi *FactInfo, x ssa.Value, base ssa.Value, fld *types.Var) (ok bool, viaAny bool) {
+		if isGetTypeOn(x, base, fld) {
+			return true, false
+		}
+		phi, isPhi := x.(*ssa.Phi)
+		if !isPhi {
+			return false, false
+		}
+		// nodeType := left.GetType(); if nodeType == Any { nodeType = right.GetType() }
+		all := true
+		for i, e := range phi.Edges {
+			if isGetTypeOn(e, base, fld) {
+				continue
+			}
+			// the other edge must come from a block where base.fld.GetType()==AnyType
+			pb := phi.Block().Preds[i]
+			okAny := false
+			for pf := range fi.At(pb) {
+				if pf.Kind == "true" && pf.Pol {
+					if pbo, ok := pf.V.(*ssa.BinOp); ok && pbo.Op == token.EQL && isGetTypeOn(pbo.X, base, fld) {
+						if pk, ok := pbo.Y.(*ssa.Const); ok && pk.Value != nil {
+							if v, _ := constant.Int64Val(pk.Value); v == anyK {
+								okAny = true
+							}
+						}
+					}
+				}
+			}
+			if !okAny {
+				all = false
+			}
+		}
+		return all && len(phi.Edges) > 0, true
+	}
 	typeFacts := func(fi *FactInfo, b *ssa.BasicBlock, base ssa.Value, fld *types.Var) (ks []int64, viaAny bool) {
 		for f := range fi.At(b) {
 			if f.Kind != "true" || !f.Pol {
@@ -190,42 +225,124 @@ func ruleC10Assert(c *Ctx) {
 				continue
 			}
 			k, _ := constant.Int64Val(kc.Value)
-			if isGetTypeOn(bo.X, base, fld) {
+			if d, any := denotes(fi, bo.X, base, fld); d {
 				ks = append(ks, k)
-				continue
-			}
-			if phi, ok := bo.X.(*ssa.Phi); ok {
-				// nodeType := left.GetType(); if nodeType == Any { nodeType = right.GetType() }
-				all := true
-				for i, e := range phi.Edges {
-					if isGetTypeOn(e, base, fld) {
-						continue
-					}
-					// the other edge must come from a block where base.fld.GetType()==AnyType
-					pb := phi.Block().Preds[i]
-					okAny := false
-					for pf := range fi.At(pb) {
-						if pf.Kind == "true" && pf.Pol {
-							if pbo, ok := pf.V.(*ssa.BinOp); ok && pbo.Op == token.EQL && isGetTypeOn(pbo.X, base, fld) {
-								if pk, ok := pbo.Y.(*ssa.Const); ok && pk.Value != nil {
-									if v, _ := constant.Int64Val(pk.Value); v == anyK {
-										okAny = true
-									}
-								}
-							}
-						}
-					}
-					if !okAny {
-						all = false
-					}
-				}
-				if all && len(phi.Edges) > 0 {
-					ks = append(ks, k)
+				if any {
 					viaAny = true
 				}
 			}
 		}
 		return
+	}
+	// tableSites: a thunk that is only ever an entry of constant dispatch tables: the calls through those
+	// tables, each with the lookup key and the entry's key constant
+	type tableSite struct {
+		caller *ssa.Function
+		call   ssa.CallInstruction
+		key    ssa.Value
+		k      int64
+	}
+	tableSites := func(thunk *ssa.Function) ([]tableSite, bool) {
+		pkg := thunk.Pkg
+		if pkg == nil {
+			return nil, false
+		}
+		keysOf := map[*ssa.Global][]int64{}
+		for _, m := range pkg.Members {
+			g, isG := m.(*ssa.Global)
+			if !isG {
+				continue
+			}
+			if _, isMap := derefType(g.Type()).Underlying().(*types.Map); !isMap {
+				continue
+			}
+			entries, okT := constTable(g)
+			if !okT {
+				continue
+			}
+			for _, e := range entries {
+				if isThunkOf(e.val, thunk) && e.key.Kind() == constant.Int {
+					k, _ := constant.Int64Val(e.key)
+					keysOf[g] = append(keysOf[g], k)
+				}
+			}
+		}
+		if len(keysOf) == 0 {
+			return nil, false
+		}
+		// no other use of the thunk as a value
+		uses := 0
+		for _, fn := range c.P.SrcFuncs(pkg.Pkg.Name()) {
+			for _, b := range fn.Blocks {
+				for _, in := range b.Instrs {
+					for _, op := range in.Operands(nil) {
+						if *op != nil && isThunkOf(*op, thunk) {
+							if call, isCall := in.(ssa.CallInstruction); isCall && call.Common().Value == *op {
+								continue // a plain static call, handled as an ordinary caller
+							}
+							uses++
+						}
+					}
+				}
+			}
+		}
+		nEntries := 0
+		for _, ks := range keysOf {
+			nEntries += len(ks)
+		}
+		if uses != nEntries {
+			return nil, false
+		}
+		var out []tableSite
+		for _, fn := range c.P.SrcFuncs(pkg.Pkg.Name()) {
+			for _, b := range fn.Blocks {
+				for _, in := range b.Instrs {
+					lk, isLk := in.(*ssa.Lookup)
+					if !isLk {
+						continue
+					}
+					ld, isLd := lk.X.(*ssa.UnOp)
+					if !isLd {
+						continue
+					}
+					g, isG := ld.X.(*ssa.Global)
+					if !isG || keysOf[g] == nil {
+						continue
+					}
+					// the function value: the lookup itself or element 0 of the comma-ok pair
+					vals := []ssa.Value{lk}
+					for _, r := range *lk.Referrers() {
+						if ex, isEx := r.(*ssa.Extract); isEx && ex.Index == 0 {
+							vals = append(vals, ex)
+						}
+					}
+					for _, v := range vals {
+						for _, r := range *v.Referrers() {
+							call, isCall := r.(ssa.CallInstruction)
+							if !isCall {
+								if _, isEx := r.(*ssa.Extract); isEx {
+									continue
+								}
+								if _, isDbg := r.(*ssa.DebugRef); isDbg {
+									continue
+								}
+								if v == ssa.Value(lk) && lk.CommaOk {
+									continue
+								}
+								return nil, false // the function value escapes
+							}
+							if call.Common().Value != v {
+								return nil, false
+							}
+							for _, k := range keysOf[g] {
+								out = append(out, tableSite{fn, call, lk.Index, k})
+							}
+						}
+					}
+				}
+			}
+		}
+		return out, len(out) > 0
 	}
 
 	// --- only-writer facts ------------------------------------------------------------------
@@ -429,6 +546,33 @@ func ruleC10Assert(c *Ctx) {
 					if len(fn.Params) > 0 && base == ssa.Value(fn.Params[0]) && fn.Object() != nil && !fn.Object().Exported() {
 						allOK, n := true, 0
 						whyNot := ""
+						// the method as an entry of a constant dispatch table: at a call through the table the lookup
+						// key equals the entry's key
+						if sites, okS := tableSites(fn); okS {
+							for _, ts := range sites {
+								n++
+								tfi := factsOf(ts.caller)
+								args := ts.call.Common().Args
+								if len(args) == 0 {
+									allOK, whyNot = false, "table call without a receiver argument"
+									continue
+								}
+								d, viaAny := denotes(tfi, ts.key, args[0], fld)
+								if !d {
+									allOK = false
+									whyNot = "the dispatch table in " + FnName(ts.caller) + " is not indexed by ." + fld.Name() + ".GetType()"
+									continue
+								}
+								if ok, why := tableOK(ts.k, ta.AssertedType, viaAny); !ok {
+									allOK = false
+									whyNot = why
+								}
+								if !noFieldChangeBetween(ts.caller, fld, ts.call) {
+									allOK = false
+									whyNot = FnName(ts.caller) + " reassigns ." + fld.Name() + " between reading its type and dispatching on it"
+								}
+							}
+						}
 						for _, caller := range cg.callers[fn] {
 							cfi := ComputeFacts(caller)
 							for _, call := range callsIn(caller) {
@@ -1365,4 +1509,26 @@ func ruleC10NilBucket(c *Ctx) {
 		}
 	}
 	c.Floor("C10.NILBUCKET", 1)
+}
+
+// isThunkOf: v is fn used as a function value — fn itself or the builder's thunk for the method expression.
+func isThunkOf(v ssa.Value, fn *ssa.Function) bool {
+	f, ok := v.(*ssa.Function)
+	if !ok {
+		return false
+	}
+	if f == fn {
+		return true
+	}
+	if !strings.HasPrefix(f.Synthetic, "thunk") {
+		return false
+	}
+	for _, b := range f.Blocks {
+		for _, in := range b.Instrs {
+			if call, isCall := in.(ssa.CallInstruction); isCall && call.Common().StaticCallee() == fn {
+				return true
+			}
+		}
+	}
+	return false
 }
